@@ -17,13 +17,25 @@ def log(*a):
 
 
 # ------------------------------------------------------------------ build
+REPO = os.environ.get("VERIF_REPO", "/repo")
+
+
 def build_driver(root, race=False):
-    """(re)build the conformance driver against /repo's current working tree."""
+    """(re)build the conformance driver against the repository's current working tree
+    (/repo; VERIF_REPO=<dir> points the build at a scratch copy for self-tests)."""
     out = os.path.join(root, ".build", "vdrive-race" if race else "vdrive")
     os.makedirs(os.path.dirname(out), exist_ok=True)
     env = dict(os.environ, **GOENV)
     h = os.path.join(root, "harness")
-    shutil.copyfile("/repo/go.sum", os.path.join(h, "go.sum"))
+    tmp = None
+    if REPO != "/repo":
+        tmp = tempfile.mkdtemp(prefix="vharness-")
+        shutil.copytree(h, os.path.join(tmp, "harness"))
+        h = os.path.join(tmp, "harness")
+        gm = open(os.path.join(h, "go.mod")).read().replace("=> /repo", "=> " + REPO)
+        open(os.path.join(h, "go.mod"), "w").write(gm)
+        out = out + "-alt"
+    shutil.copyfile(os.path.join(REPO, "go.sum"), os.path.join(h, "go.sum"))
     cmd = ["go", "build", "-tags", "verif", "-o", out]
     if race:
         cmd.insert(2, "-race")
@@ -31,6 +43,8 @@ def build_driver(root, race=False):
     cmd.append(".")
     t0 = time.time()
     p = subprocess.run(cmd, cwd=h, env=env, stdout=subprocess.PIPE, stderr=subprocess.STDOUT, text=True)
+    if tmp:
+        shutil.rmtree(tmp, ignore_errors=True)
     if p.returncode != 0:
         raise Infra("driver build failed:\n" + p.stdout[-4000:])
     return out, time.time() - t0
@@ -425,7 +439,7 @@ def check(root, props, prop, tier, seed):
     rc = 0
     try:
         ctx["driver"], bt = build_driver(root)
-        log("built driver in %.1fs (from /repo working tree, -tags verif)" % bt)
+        log("built driver in %.1fs (from %s working tree, -tags verif)" % (bt, REPO))
         ctx["specdir"] = prepare_specdir(root, ctx["work"])
         for stage in cfg["stages"]:
             if tier not in stage.get("tiers", ("quick", "thorough")):
